@@ -157,7 +157,7 @@ def r18_3(run, model):
         for c in S.walk(f.body):
             if c["k"] == "Macro" and c["name"] == "format" and c.get("args"):
                 a0 = c["args"][0]
-                if a0["k"] == "Lit" and re.fullmatch(r"[A-Za-z_][A-Za-z0-9_]*\{\}", a0["value"]):
+                if a0["k"] == "Lit" and re.fullmatch(r"[A-Za-z_][A-Za-z0-9_]*\{[A-Za-z0-9_]*\}", a0["value"]):
                     n += 1
                     ok = a0["value"].startswith("_")
                     run.ob("R18.3", f"{f.name}|binder {a0['value']}", ok, site(DER, c["sp"]), f"synthesised binder pattern `{a0['value']}`",
